@@ -53,6 +53,8 @@ func checkC08(p *Prog, r *Report) {
 	checkC08FieldsAccepted(p, r)
 	r.rule("C08.list-split: every strings splitter on the NewSimpleURL path is Split/SplitN at the constant \",\" (lists) or \"/\" (path), the separators String() writes")
 	checkListSplit(p, r, ns)
+	r.rule("C08.filter-verbatim: Filter.UnmarshalJSON stores Field, Op and Col as decoded (a member of the skeleton, or a constant); C08.single-decoding: nothing on the NewSimpleURL path percent-decodes again what net/url already decoded (url.URL.Path, url.URL.Query)")
+	checkFilterVerbatim(p, r)
 	checkFieldsDefault(p, r, "C08")
 	checkFieldsFresh(p, r, "C08")
 	checkSortCompletion(p, r)
@@ -1594,7 +1596,62 @@ func sameAccumulation(a, b ssa.Value) bool {
 // with the constant separator ",".
 func checkListSplit(p *Prog, r *Report, ns *ssa.Function) {
 	n := 0
-	for _, g := range append([]*ssa.Function{ns}, stringHelpers(ns)...) {
+	var scope []*ssa.Function
+	for _, g := range p.cg.Reachable(ns) {
+		if g.Pkg == ns.Pkg {
+			scope = append(scope, g)
+		}
+	}
+	// the separator: a constant, or a parameter that every call in scope binds
+	// to an accepted constant
+	var sepOK func(v ssa.Value, depth int) bool
+	sepOK = func(v ssa.Value, depth int) bool {
+		if sep, ok := constString(v); ok {
+			return sep == "," || sep == "/"
+		}
+		prm, ok := v.(*ssa.Parameter)
+		if !ok || depth > 2 {
+			return false
+		}
+		g := prm.Parent()
+		idx := -1
+		for i, q := range g.Params {
+			if q == prm {
+				idx = i
+			}
+		}
+		nCalls, all := 0, true
+		for _, h := range scope {
+			eachInstr(h, func(i2 ssa.Instruction) {
+				c2, ok := i2.(*ssa.Call)
+				if !ok || c2.Common().StaticCallee() != g || idx < 0 || idx >= len(c2.Common().Args) {
+					return
+				}
+				nCalls++
+				if !sepOK(c2.Common().Args[idx], depth+1) {
+					all = false
+				}
+			})
+		}
+		return nCalls > 0 && all
+	}
+	nDec := 0
+	for _, g := range scope {
+		eachInstr(g, func(ins ssa.Instruction) {
+			c, ok := ins.(*ssa.Call)
+			if !ok || c.Common().StaticCallee() == nil {
+				return
+			}
+			if nm := fullName(c.Common().StaticCallee()); nm == "net/url.PathUnescape" || nm == "net/url.QueryUnescape" {
+				nDec++
+				r.bad("C08.single-decoding", funcName(g)+":"+p.describe(c), p.pos(c.Pos()), "a value taken from the parsed URL (already percent-decoded by net/url) is decoded a second time: an ID that contains a literal percent escape (printed by String() as %25..) reads back as another ID")
+			}
+		})
+	}
+	if nDec == 0 {
+		r.ok("C08.single-decoding", "NewSimpleURL:no-second-decoding", p.pos(ns.Pos()), "no percent-decoding call on the NewSimpleURL path")
+	}
+	for _, g := range scope {
 		eachInstr(g, func(ins ssa.Instruction) {
 			c, ok := ins.(*ssa.Call)
 			if !ok || c.Common().StaticCallee() == nil || c.Common().StaticCallee().Pkg == nil || c.Common().StaticCallee().Pkg.Pkg.Path() != "strings" {
@@ -1610,14 +1667,54 @@ func checkListSplit(p *Prog, r *Report, ns *ssa.Function) {
 			n++
 			name := c.Common().StaticCallee().Name()
 			good := false
-			if (name == "Split" || name == "SplitN") && len(c.Common().Args) >= 2 {
-				if sep, ok := constString(c.Common().Args[1]); ok && (sep == "," || sep == "/") {
-					good = true
-				}
+			if (name == "Split" || name == "SplitN") && len(c.Common().Args) >= 2 && sepOK(c.Common().Args[1], 0) {
+				good = true
 			}
 			r.decide(good, "C08.list-split", funcName(g)+":"+p.describe(c), p.pos(c.Pos()), "lists are cut at the separator String() writes",
 				"a list read from the URL is cut with "+name+" at something other than the single comma (or slash, for the path) that String() writes between items: a name containing the extra separator (a space, say) is printed as one item and read back as two, so String() is not a fixed point of parsing")
 		})
 	}
 	r.floor("list splitters on the NewSimpleURL path", n, 1)
+}
+
+// checkFilterVerbatim: the filter printed by String() is the Filter's own
+// Field/Op/Col re-marshaled; it parses back to the same tree only if
+// Filter.UnmarshalJSON stores those members as decoded. Every store into
+// Field, Op or Col of the receiver is a member of the decoded skeleton as is,
+// or a constant (the reset of Field for and/or).
+func checkFilterVerbatim(p *Prog, r *Report) {
+	f := p.Fn("(*Filter).UnmarshalJSON")
+	if f == nil {
+		r.fail("anchor (*Filter).UnmarshalJSON not found")
+		return
+	}
+	n := 0
+	eachInstr(f, func(ins ssa.Instruction) {
+		st, ok := ins.(*ssa.Store)
+		if !ok {
+			return
+		}
+		fa, ok := st.Addr.(*ssa.FieldAddr)
+		if !ok || fa.X != ssa.Value(f.Params[0]) {
+			return
+		}
+		_, fl := fieldRef(fa.X, fa.Field)
+		if fl != "Field" && fl != "Op" && fl != "Col" {
+			return
+		}
+		n++
+		good := true
+		for _, o := range origins(st.Val) {
+			if _, isConst := o.(*ssa.Const); isConst {
+				continue
+			}
+			if _, _, isField := fieldLoad(o); isField {
+				continue
+			}
+			good = false
+		}
+		r.decide(good, "C08.filter-verbatim", "(*Filter).UnmarshalJSON:"+p.describe(st), p.pos(st.Pos()), "stored as decoded",
+			"Filter.UnmarshalJSON stores a transformed value into "+fl+" (lower-cased, trimmed, …) while its own decisions and String()'s output use the raw one: the printed filter does not parse back to the same tree, so String() is not a fixed point")
+	})
+	r.floor("stores into Filter.Field/Op/Col", n, 3)
 }
